@@ -80,19 +80,23 @@ func (l *Lexer) nextToken(noPanic bool) {
 		if l.pos == i {
 			break
 		}
+
+		if hasError {
+			// In recovery mode an unclosed comment is a <bad> token spanning it, like an unclosed literal.
+			l.Token.Space = space
+			l.Token.Raw = l.Buffer[i:l.pos]
+			l.Token.Pos = token.Pos(i)
+			l.Token.End = token.Pos(l.pos)
+			l.Token.Kind = token.TokenBad
+			return
+		}
+
 		l.Token.Comments = append(l.Token.Comments, token.TokenComment{
 			Space: space,
 			Raw:   l.Buffer[i:l.pos],
 			Pos:   token.Pos(i),
 			End:   token.Pos(l.pos),
 		})
-
-		if hasError {
-			l.Token.Pos = token.Pos(l.pos)
-			l.Token.End = token.Pos(l.pos)
-			l.Token.Kind = token.TokenBad
-			return
-		}
 	}
 
 	l.Token.Space = space
